@@ -91,6 +91,9 @@ type Resolution struct {
 	// ClockPerRead: the simulated clock advances by a fixed step per read instead of per tick, so that what a call
 	// observes of the clock does not depend on how much work it did before the read (conc jobs)
 	ClockPerRead bool `json:"clock_per_read,omitempty"`
+	// StackDepth: Layout is called from inside a recursion this many frames deep (the caller's own stack is an ambient
+	// condition: recursion guards that ask the runtime how deep the stack is see it)
+	StackDepth int `json:"stack_depth,omitempty"`
 }
 
 type Budgets struct {
